@@ -273,6 +273,14 @@ impl<B: Body> PreparedRequest<B> {
     }
 }
 
+#[cfg(feature = "verif-hooks")]
+impl<B> PreparedRequest<B> {
+    #[doc(hidden)]
+    pub fn verif_snapshot(&self) -> crate::verif::Snapshot {
+        crate::verif::snapshot(&self.base_settings)
+    }
+}
+
 fn set_host(headers: &mut HeaderMap, url: &Url) -> Result {
     let host = url.host_str().ok_or(ErrorKind::InvalidUrlHost)?;
     if let Some(port) = url.port() {
